@@ -86,7 +86,7 @@ def perturb(v):
     """another document of the same shape (what a reused statement saw before)"""
     if isinstance(v, bool) or v is None:
         return v
-    if isinstance(v, int):
+    if isinstance(v, (int, float)):
         return v + 3
     if isinstance(v, str):
         return v + 'x'
@@ -117,9 +117,11 @@ def earlier(rng, v):
             out.append(rng.choice((0, 'x', None)))               # an element the host pops later
         return tuple(out)
     if isinstance(v, bool):
-        return not v
+        return rng.choice((not v, not v, int(v), float(v)))
     if isinstance(v, int):
-        return v + rng.choice((1, 3, -2))
+        return rng.choice((v + 1, v + 3, v - 2, float(v), v == 1))        # (also: the equal value of another type)
+    if isinstance(v, float):
+        return rng.choice((v + 1, int(v), -v, v == 1))
     if isinstance(v, str):
         return rng.choice((v + 'x', '', 7))
     return rng.choice((0, None, 'was'))
@@ -156,7 +158,7 @@ def _ordered(v):
         return ('d', [(k, _ordered(x)) for k, x in v.items()])
     if isinstance(v, (list, tuple)):
         return ('l', [_ordered(x) for x in v])
-    return (type(v).__name__, v)
+    return (type(v).__name__, repr(v))
 
 
 REUSE_MODES = ('single', 'single', 'single', 'single', 'single', 'statement-on-another-document',
@@ -299,26 +301,39 @@ def dec_value(j):
     (k, x), = j.items()
     if k == 'i':
         return int(x)
+    if k == 'f':
+        return values.bits2f(x)
     if k == 's':
         return ''.join(chr(c) for c in x)
     if k in ('tu', 'li', 'it'):
         return [dec_value(t) for t in x]
     if k == 'd':
-        return {dec_value(a): dec_value(b) for a, b in x}
+        # NOT a Python dict: it would merge the keys 1 / true / 1.0 of a (wrong) model result into one
+        return Pairs((dec_value(a), dec_value(b)) for a, b in x)
     raise ValueError(j)
+
+
+class Pairs(list):
+    """the entries of a dictionary the model returned, as they crossed the wire"""
 
 
 # ------------------------------------------------------------------ comparison
 
 def typed(x):
-    """results compared with their types (1 is not true), lists and tuples alike, dicts as maps"""
+    """results compared with their TYPES at every depth: 1, true and 1.0 are three values (Python's `[1] == [True] ==
+    [1.0]` and `{1: 0} == {True: 0}` must not be used anywhere on this path), 0.0 and -0.0 are two (floats by their bits);
+    lists and tuples alike, dicts as maps from typed keys"""
+    if isinstance(x, Pairs):
+        return ('D', tuple(sorted(((typed(k), typed(v)) for k, v in x), key=repr)))
     if isinstance(x, (list, tuple)):
         return ('L', tuple(typed(y) for y in x))
     if isinstance(x, dict):
         return ('D', tuple(sorted(((typed(k), typed(v)) for k, v in x.items()), key=repr)))
+    if isinstance(x, float):
+        return ('float', values.fbits(x))
     if x is None or isinstance(x, (bool, int, str)):
-        return (type(x).__name__, x)
-    return ('?', type(x).__name__)
+        return (type(x).__name__, repr(x))
+    return ('?', type(x).__name__, repr(x))
 
 
 def same(a, b):
@@ -336,11 +351,24 @@ def agree(real, other):
     return same(real, other)
 
 
+def show_value(v):
+    """JSON-like text that tells 1 / true / 1.0 / -0.0 apart, also as dictionary keys"""
+    if isinstance(v, Pairs):
+        return '{' + ', '.join(sorted('%s: %s' % (show_value(k), show_value(x)) for k, x in v)) + '}'
+    if isinstance(v, dict):
+        return '{' + ', '.join(sorted('%s: %s' % (show_value(k), show_value(x)) for k, x in v.items())) + '}'
+    if isinstance(v, (list, tuple)):
+        return '[' + ', '.join(show_value(x) for x in v) + ']'
+    if v is None or isinstance(v, (bool, int, float, str)):
+        return json.dumps(v)
+    return repr(v)
+
+
 def show(r):
     if r is None:
         return 'no-model'
     if r[0] == 'ok':
-        return 'ok %s' % json.dumps(r[1], default=repr, sort_keys=True)
+        return 'ok %s' % show_value(r[1])
     if r[0] == 'err':
         return 'raises ' + r[1]
     if r[0] == 'ctx':
@@ -599,7 +627,7 @@ def work(args):
         for (ast, doc, t), model in zip(batch, replies):
             text = evalgen.render(ast)
             back = parse_ast(text)
-            if back != ast:
+            if back != ast or repr(back) != repr(ast):         # (repr: the literal 1 is not the literal true / 1.0)
                 out['parse_diff'].append(text)
                 continue
             f, info = evaluate_case(ast, doc, model)
